@@ -683,6 +683,9 @@ class ContextStateTransaction(_TransactionBase):
             if old_state_container is not None:
                 msg = f'ContextState with handle={context_state_handle} already exists'
                 raise ValueError(msg)
+            if context_state_handle in self._mdib.descriptions.handle:
+                msg = f'handle={context_state_handle} is already used by a descriptor'
+                raise ValueError(msg)
 
         new_state_container = self._mdib.data_model.mk_state_container(descriptor_container)
         new_state_container.Handle = context_state_handle or uuid.uuid4().hex
